@@ -62,6 +62,35 @@ def run(chk, tier):
         chk.ob("VN", FN + "#" + name, loops.const_value(lp["start"]) == 0, "loop starts at %s (must start at 0)" % show(lp["start"]), lp["where"], key="start")
     expect(chk, "VN", FN + "#outer", sw(outer["N"]), cast(fld(okval(hdr), "elevation_segment_count"), "u16", "u8"), outer["where"], "outer loop bound")
     chk.ob("VN", FN + "#azimuth", loops.const_value(mid["N"]) == 360, "azimuth loop bound is %s (must be 360)" % show(mid["N"]), mid["where"], key="bound")
+    # ---- before the outer loop: the only early returns are the header's own failure and, possibly, the empty map for a count of 0
+    try:
+        pre = [(c_, l_) for c_, l_ in loops.paths(loops.entry_env(prog, fn, outer["head"])[1]) if isinstance(l_, tuple) and l_ and l_[0] != "@join"]
+    except sym.Undecided as e:
+        pre = None
+        chk.blind("VN", FN, "code before the segment loop could not be evaluated: %s" % e, fn.where())
+    if pre is not None:
+        nterm = sw(outer["N"])
+        bad = []
+        for c_, l_ in pre:
+            if any(len(k) == 3 and k[0] == ("discr", hdr) and k[2] == ((1, 1),) for k in c_):
+                if not (l_[0] == "adt" and l_[2] == "Err"):
+                    bad.append("the header's failure returns %s" % show(l_)[:60])
+                continue
+            rest = [k for k in c_ if not (len(k) == 3 and k[0] == ("discr", hdr))]
+            empty_ok = l_[0] == "adt" and l_[2] == "Ok" and l_[3][0][1][0] == "adt" and listalg_empty(fld(l_[3][0][1], "elevation_segments"))
+
+            def holds(k, n):
+                t_ = sym.rebuild(k[0], {nterm: C(n, "u8")})
+                if len(k) == 2:
+                    return (t_ == TRUE) == k[1] if t_ in (TRUE, FALSE) else None
+                if sym.is_c(t_) and isinstance(t_[1], int):
+                    return any(lo <= t_[1] <= hi for lo, hi in k[2])
+                return None
+            open_for = [n for n in range(0, 256) if all(holds(k, n) is not False for k in rest)]
+            if not (empty_ok and rest and open_for == [0]):
+                bad.append("returns %s before reading any segment for segment counts %s" % (show(l_)[:60], open_for[:4] + (["…"] if len(open_for) > 4 else [])))
+        chk.ob("R-ERR", FN, not bad, "before the segment loop the decoder returns only on the header's failure (or the empty map for a count of 0)" if not bad else "; ".join(bad)[:300],
+               fn.where(), key="pre-loop-returns")
     # ---- iteration shapes
     for name, lp in (("outer", outer), ("azimuth", mid)) + ((("zones", inner),) if inner else ()):
         shape(chk, fn, name, lp)
@@ -114,6 +143,14 @@ def run(chk, tier):
     from rules import c08
     from nx import chrono_model as cm
     chk.floor("generation date-time accessor", c08.accessor(chk, prog, cm.evaluator(prog), M + "header::Header::date_time", no_panic=True), 1)
+
+
+def listalg_empty(v):
+    from nx import listalg
+    try:
+        return listalg.seq(v) == []
+    except Exception:
+        return False
 
 
 def find_seqs(t, out):
